@@ -678,6 +678,8 @@ spif_url_init_from_ipaddr(spif_url_t self, spif_ipsockaddr_t ipaddr)
     }
 
     self->port = spif_str_new_from_num(ntohs(ipaddr->sin_port));
+    /* Give the URL its text form too; spif_url_dup() and friends work from it. */
+    spif_url_unparse(self);
     return TRUE;
 }
 
@@ -712,6 +714,8 @@ spif_url_init_from_unixaddr(spif_url_t self, spif_unixsockaddr_t unixaddr)
     } else {
         self->path = (spif_str_t) NULL;
     }
+    /* Give the URL its text form too; spif_url_dup() and friends work from it. */
+    spif_url_unparse(self);
     return TRUE;
 }
 
